@@ -37,6 +37,8 @@ pub enum LinkStyle {
     Absolute,
     Dangling,
     SelfCycle,
+    /// absolute, but not canonical: `<dir>/../<dir name>/<name>`
+    AbsoluteDotDot,
 }
 
 #[derive(Clone, Debug, Serialize, Deserialize, PartialEq, Eq)]
@@ -238,6 +240,13 @@ impl TreeSpec {
                         LinkStyle::Absolute => {
                             let t = &built.entries[cands[pick(*sel, cands.len())]];
                             path_bytes(&t.abs)
+                        }
+                        LinkStyle::AbsoluteDotDot => {
+                            let t = &built.entries[cands[pick(*sel, cands.len())]];
+                            match (t.abs.parent(), t.abs.parent().and_then(|d| d.file_name()), t.abs.file_name()) {
+                                (Some(d), Some(dn), Some(n)) => path_bytes(&d.join("..").join(dn).join(n)),
+                                _ => path_bytes(&t.abs),
+                            }
                         }
                     };
                     if std::os::unix::fs::symlink(bytes_path(&target), &abs).is_err() {
